@@ -92,10 +92,29 @@ def _renumber(t, lvnum=None):
 _N = Normaliser()
 
 
+def _size(t, memo, cap=400):
+    """number of nodes of the term seen as a tree (what a tree-walking normaliser would visit), capped"""
+    if not isinstance(t, tuple):
+        return 1
+    k = id(t)
+    if k in memo:
+        return memo[k]
+    n = 1
+    for x in t:
+        n += _size(x, memo, cap)
+        if n > cap:
+            break
+    memo[k] = n
+    return n
+
+
 def _arith(t):
-    """replace maximal arithmetic sub-terms by the key of their linear normal form"""
+    """replace small maximal arithmetic sub-terms by the key of their linear normal form (large ones - whole kernels folded into
+    one expression - are compared structurally: their normal form would be exponentially large)"""
+    memo = {}
+
     def rule(x):
-        if x and x[0] == 'bin' and x[1] in ('Add', 'Sub', 'Mult', 'Div'):
+        if x and x[0] == 'bin' and x[1] in ('Add', 'Sub', 'Mult', 'Div') and _size(x, memo) <= 400:
             try:
                 lin = _N.N(x)
             except Exception:
